@@ -98,8 +98,8 @@ def failing_when_map_cannot_grow(c, runner):
             holder = g.new_event(kind=10002, pk=pk, t=100, tags=[], content=b'holder')
             note = g.new_event(kind=1, pk=pk, t=100, tags=[[b't', b'a']], content=b'note')
             calls = []
-            for i in range(14):
-                sz = rng.choice([10, 150, 300, 700, 1500])
+            for i in range(40):
+                sz = rng.choice([10, 150, 300, 700, 1500, 3000])
                 r = rng.random()
                 if r < 0.4:
                     x = g.new_event(kind=10002, pk=pk, t=200 + i, tags=[], content=b'v' * sz)
